@@ -502,6 +502,26 @@ func checkRealSpec(rep *Reporter, st *c17stats, m *impl.TMsg, spec *iso8583.Mess
 	evalSpec(rep, &c17stats{}, m, spec, rounds)
 }
 
+// documents ExportJSON returned earlier in this run, as returned (live) and as they read then:
+// a caller keeps what it was given, later exports of other specs must not change it
+type keptExport struct {
+	line       string
+	live, then []byte
+}
+
+var keptExports []keptExport
+
+func checkKeptExports(rep *Reporter, after string) {
+	for i, e := range keptExports {
+		if !bytes.Equal(e.live, e.then) {
+			rep.Viol("the document ExportJSON returned for one spec changed when another spec was exported later", e.line,
+				fmt.Sprintf("returned %s ; after `%s` the same slice reads %s", trunc(string(e.then), 200), trunc(after, 120), trunc(string(e.live), 200)))
+			keptExports = append(keptExports[:i:i], keptExports[i+1:]...)
+			return
+		}
+	}
+}
+
 func evalSpec(rep *Reporter, st *c17stats, m *impl.TMsg, spec *iso8583.MessageSpec, rounds int) {
 	line := "S export " + m.Text()
 	st.specs++
@@ -519,6 +539,11 @@ func evalSpec(rep *Reporter, st *c17stats, m *impl.TMsg, spec *iso8583.MessageSp
 			return
 		}
 		st.exported++
+		checkKeptExports(rep, line)
+		keptExports = append(keptExports, keptExport{line, j1, append([]byte(nil), j1...)})
+		if len(keptExports) > 6 {
+			keptExports = keptExports[1:]
+		}
 		for i := 0; i < 3; i++ {
 			again, err := specs.Builder.ExportJSON(spec)
 			if err != nil || !bytes.Equal(again, j1) {
